@@ -5,6 +5,8 @@ package decorator
 import (
 	"encoding/json"
 	"fmt"
+	"sort"
+	"strings"
 
 	"metacontroller/pkg/apis/metacontroller/v1alpha1"
 	sim "metacontroller/pkg/verifsim"
@@ -157,5 +159,73 @@ func (w *dworld) judgeStrategy(res *syncResult) {
 				viol(fmt.Sprintf("desired-child-deleted-under:%q", string(m)), fmt.Sprintf("an attachment the hook still desires was deleted although the update method of its resource is %q", string(m)), q)
 			}
 		}
+	}
+}
+
+// M-VIEW (decorator side): the C03 oracle as an always-on monitor. When a sync or finalize call
+// arrives, the `attachments` map of the request is compared with the store: one group per declared
+// attachment resource; in it exactly the objects whose CONTROLLER reference carries the target's
+// UID and which carry this decorator's marker, in the target's scope, keyed by name - or
+// namespace/name exactly when the target is cluster-scoped and the attachment namespaced.
+func (w *dworld) observeHookCall(call *sim.HookCall) {
+	if call.Path != "sync" && call.Path != "finalize" {
+		return
+	}
+	target, _ := call.Req["object"].(map[string]interface{})
+	if target == nil {
+		return
+	}
+	apiVersion, _ := target["apiVersion"].(string)
+	kind, _ := target["kind"].(string)
+	ti, ok := sim.InfoByKind(apiVersion, kind)
+	if !ok {
+		return
+	}
+	tuid, tns := sim.UID(target), sim.NS(target)
+	live := w.sim.Peek(ti.GVR(), tns, sim.Name(target))
+	if live == nil || sim.UID(live) != tuid {
+		return
+	}
+	want := map[string][]string{}
+	for _, a := range w.cfg.Attachments {
+		hk := sim.HookKey(a.Info)
+		want[hk] = []string{}
+		for _, o := range w.sim.PeekAll(a.Info.GVR()) {
+			ctl := sim.ControllerOf(o)
+			if ctl == nil || ctl.UID != tuid || sim.Annotations(o)[sim.DecoratorAnnotation] != w.cfg.ID {
+				continue
+			}
+			if ti.Namespaced && sim.NS(o) != tns {
+				continue
+			}
+			k := sim.Name(o)
+			if !ti.Namespaced && a.Info.Namespaced {
+				k = sim.NS(o) + "/" + k
+			}
+			want[hk] = append(want[hk], k+"#"+sim.UID(o))
+		}
+	}
+	got := map[string][]string{}
+	atts, _ := call.Req["attachments"].(map[string]interface{})
+	for hk, g := range atts {
+		got[hk] = []string{}
+		gm, _ := g.(map[string]interface{})
+		for k, o := range gm {
+			om, _ := o.(map[string]interface{})
+			got[hk] = append(got[hk], k+"#"+sim.UID(om))
+		}
+	}
+	flat := func(m map[string][]string) string {
+		var out []string
+		for hk, l := range m {
+			sort.Strings(l)
+			out = append(out, hk+"{"+strings.Join(l, ",")+"}")
+		}
+		sort.Strings(out)
+		return strings.Join(out, " ")
+	}
+	w.viewsJudged++
+	if a, b := flat(got), flat(want); a != b {
+		sim.R().Violation("C03", w.reportID(), "mview:decorator:attachments-map-differs:"+call.Path, fmt.Sprintf("the attachments map sent to the %s hook differs from what the target controls (with this decorator's marker) when the call arrives:\n  sent:       %s\n  controlled: %s", call.Path, a, b), map[string]interface{}{"sync": call.Tag})
 	}
 }
